@@ -32,7 +32,7 @@ mod c12_decode;
 mod c12_files;
 
 use c12_adv::{Delivery, fmt_script, parse_script};
-use c12_decode::{T, decode_b, decode_r, is_read_format};
+use c12_decode::{T, decode_b, decode_bs, decode_r, is_read_format};
 use c12_files as files;
 
 const CAPS: &[usize] = &[1, 2, 3, 5, 7, 16, 64, 4096, 65536];
@@ -43,6 +43,10 @@ const CAPS: &[usize] = &[1, 2, 3, 5, 7, 16, 64, 4096, 65536];
 fn transcript(fmt: &str, data: &Arc<Vec<u8>>, d: Option<&Delivery>) -> Vec<String> {
     let mut t = T::new();
     let r = guarded(std::panic::AssertUnwindSafe(|| match d {
+        _ if fmt == "fastaq" => match d {
+            None => decode_bs(fmt, &data[..], &|| std::io::Cursor::new(&data[..]), &mut t),
+            Some(d) => decode_bs(fmt, &data[..], &|| BufReader::with_capacity(d.cap.unwrap_or(8192), d.source(data)), &mut t),
+        },
         None => {
             if is_read_format(fmt) {
                 decode_r(fmt, &|| &data[..], &mut t)
@@ -711,7 +715,8 @@ fn generate(rng: &mut Rng, tier: &str, w: &mut CaseWriter) {
         files_of.push(("bcf", files::bgzip(&braw, &files::random_breaks(rng, braw.len()), rng.chance(3, 4))));
         let fa = files::fasta_text(rng, crlf);
         files_of.push(("fasta", fa.clone()));
-        files_of.push(("fastaidx", fa));
+        files_of.push(("fastaidx", fa.clone()));
+        files_of.push(("fastaq", fa));
         files_of.push(("fastq", files::fastq_text(rng, crlf)));
         files_of.push(("gff", files::gff_text(rng, crlf)));
         files_of.push(("gtf", files::gtf_text(rng, crlf)));
